@@ -1,7 +1,6 @@
 from __future__ import annotations
 
 import base64
-import binascii
 import collections.abc as cabc
 import typing as t
 
@@ -105,7 +104,8 @@ class Authorization:
         if scheme == "basic":
             try:
                 username, _, password = base64.b64decode(rest).decode().partition(":")
-            except (binascii.Error, UnicodeError):
+            except ValueError:
+                # invalid base64 (binascii.Error), non-ASCII characters, or invalid UTF-8
                 return None
 
             return cls(scheme, {"username": username, "password": password})
